@@ -141,6 +141,7 @@ f3!(f3_commit_m16_k1_s1_a1_d1, 16, 1, 1, 1, 1, 0, 5, usize::MAX);
 f3!(f3_commit_m1_k1_s64_a64_d1, 1, 1, 64, 64, 1, 32, 5, usize::MAX);
 f3!(f3_commit_m1_k1_s0_a1_d0, 1, 1, 0, 1, 0, 0, 5, usize::MAX);
 f3!(f3_commit_m1_k1_s900_a16_d3, 1, 1, 900, 16, 3, 448, 5, usize::MAX);
+f3!(f3_commit_m8_k1_s448_a1_d0, 8, 1, 448, 1, 0, 0, 5, usize::MAX);
 // K = 2: previous chunks 448 + 960
 f3!(f3_commit_m1_k2_s700_a8_d1, 1, 2, 700, 8, 1, 600, 5, usize::MAX);
 f3!(f3_commit_m16_k2_s700_a32_d1, 16, 2, 700, 32, 1, 96, 5, usize::MAX);
@@ -154,6 +155,7 @@ pub fn f3_commit_m16_k0_s0_a64_d1() {
     f3_commit::<16, 0, 0, 64, 1, 0, { usize::MAX }, true>();
 }
 f3!(f3_commit_m4_k0_s300_a2_d3, 4, 0, 300, 2, 3, 0, 4, usize::MAX);
+f3!(f3_commit_m1_k0_s64_a64_d1, 1, 0, 64, 64, 1, 0, 4, usize::MAX);
 // K = 0, small-limit bypass: concrete limit, symbolic refusal mask
 f3!(f3_commit_m1_k0_s5_a1_d0_l100, 1, 0, 5, 1, 0, 0, 14, 100);
 #[kani::proof]
@@ -164,3 +166,53 @@ pub fn f3_commit_m8_k0_s0_a8_d1_l64() {
     f3_commit::<8, 0, 0, 8, 1, 0, 64, true>();
 }
 f3!(f3_commit_m1_k0_s1_a1_d0_l10, 1, 0, 1, 1, 0, 0, 14, 10);
+
+/// The chunk constructor alone (private `new_chunk` + `new_chunk_memory_details`), then the
+/// chunk-list destructor: what is recorded in the footer is exactly what was requested from the
+/// global allocator, also for over-aligned chunks (cheap; the full slow path with align 64 costs 4 min).
+pub fn f3_new_chunk<const M: usize, const SIZE: usize, const ALIGN: usize, const DISP: u8>() {
+    unsafe {
+        pool_reset(0);
+        DISPLACE = DISP;
+        let layout = Layout::from_size_align(SIZE, ALIGN).unwrap();
+        let d = Bump::<M>::new_chunk_memory_details(None, layout).unwrap();
+        let f = Bump::<M>::new_chunk(d, layout, empty_footer());
+        match f {
+            Some(f) => {
+                assert!(NREC == 1, "[C03] new_chunk did not obtain exactly one block");
+                let rec = LEDGER[0];
+                let fa = f.as_ptr() as usize;
+                assert!(rec.size == d.size && rec.align == d.align, "[C03] block requested with a different layout than computed");
+                assert!(f.as_ref().layout.size() == rec.size && f.as_ref().layout.align() == rec.align,
+                        "[C03] recorded layout differs from the layout requested from the global allocator");
+                assert!(f.as_ref().data.as_ptr() as usize == rec.ptr && fa + FOOTER_SIZE == rec.ptr + rec.size, "[C01,C03] footer not at the end of the block obtained");
+                assert!(rec.ptr & (ALIGN - 1) == 0 && rec.align >= 16 && rec.align >= M && rec.align >= ALIGN, "[C04] chunk alignment");
+                assert!(f.as_ref().ptr.get().as_ptr() as usize == fa, "[C10] fresh chunk's finger is not at the footer");
+                assert!(f.as_ref().allocated_bytes == rec.size - FOOTER_SIZE, "[C08] accounting of a first chunk != its usable size");
+                assert!(f.as_ref().prev.get() == empty_footer(), "[C03] chunk not linked to its predecessor");
+                crate::dealloc_chunk_list(f);
+                assert!(NFREE == 1 && !FOREIGN_FREE && !DOUBLE_FREE && ledger_live_count() == 0, "[C03] chunk list destructor did not return exactly the block");
+                assert!(!LAYOUT_MISMATCH, "[C03] block freed with a layout other than the one it was requested with");
+                kani::cover!(true, "REACH: chunk created and released");
+            }
+            None => {
+                assert!(false, "[C09] new_chunk failed although the allocator accepted");
+            }
+        }
+    }
+}
+macro_rules! f3n {
+    ($name:ident, $m:expr, $size:expr, $align:expr, $disp:expr) => {
+        #[kani::proof]
+        #[kani::unwind(5)]
+        #[kani::stub(crate::core_alloc::alloc::alloc, alloc_pool)]
+        #[kani::stub(crate::core_alloc::alloc::dealloc, dealloc_pool)]
+        pub fn $name() {
+            f3_new_chunk::<$m, $size, $align, $disp>();
+        }
+    };
+}
+f3n!(f3_new_chunk_m1_s64_a64_d1, 1, 64, 64, 1);
+f3n!(f3_new_chunk_m1_s10_a32_d3, 1, 10, 32, 3);
+f3n!(f3_new_chunk_m16_s100_a8_d1, 16, 100, 8, 1);
+f3n!(f3_new_chunk_m8_s600_a128_d0, 8, 600, 128, 0);
